@@ -752,6 +752,24 @@ func genC20(e *emitter, r *rng, thorough bool) {
 			if mime == "base64" {
 				ev("b64.bad", payload+"*", sigHex, pkHex, mime)
 				ev("b64.newline", payload[:len(payload)/2]+"\n"+payload[len(payload)/2:], sigHex, pkHex, mime)
+				// long payloads, and two padded encodings glued together with the first one ending exactly at a buffer-sized
+				// offset (4 .. 8192 characters): the signature is over part1||part2, so only the strictness of the base64
+				// decoding decides (a chunked/streaming decoder accepts '=' at the end of each of its chunks)
+				if i < 2 {
+					for _, L := range []int{4, 8, 64, 76, 512, 1024, 2048, 4096, 8192} {
+						for pad := 1; pad <= 2; pad++ {
+							p1, p2 := r.bytes(L/4*3-pad), r.bytes(1+r.intn(400))
+							whole := append(append([]byte{}, p1...), p2...)
+							sw, err := priv.Sign(crypto.Sha256(whole))
+							if err != nil {
+								continue
+							}
+							swHex := hex.EncodeToString(sw.Serialise())
+							ev("b64.interior-pad", stdB64(p1)+stdB64(p2), swHex, pkHex, mime)
+							ev("b64.long", stdB64(whole), swHex, pkHex, mime)
+						}
+					}
+				}
 			}
 		}
 	}
